@@ -284,6 +284,18 @@ def walk_table(
                     rec(m, ev2, unk + ((text, l, c[0] if c else None),), trace + ((n.lineno, text, l, False),))
                     used.discard(e)
                 return
+        if n.kind == "for":
+            c = classify(n)
+            if c is not None:
+                v = scenario.get(c[0])
+                if v is not None:
+                    v = v if c[1] else (not v)
+                    if v:
+                        # at least one iteration: take `loop` while unused, then `done`
+                        loop_unused = [(m, l) for (m, l) in n.succ if l == "loop" and (n.id, m.id, l) not in used]
+                        succ = loop_unused if loop_unused else [(m, l) for (m, l) in n.succ if l == "done"]
+                    else:
+                        succ = [(m, l) for (m, l) in n.succ if l == "done"]
         for (m, l) in succ:
             if l == "exc" and n.kind != "stmt":
                 continue
